@@ -85,6 +85,20 @@ class C20(Prop):
                                 announce_flag=("-a", "--announce", "--tracker")[k % 3]))
         return out
 
+    def corruptions(self, recs):
+        import copy
+        from .mutate import first
+        out = []
+        for r in first(recs, lambda r: r["status"] == "ok" and r["opts"]["A"]):
+            m = copy.deepcopy(r)
+            m["m"]["announce"] = ["-"]
+            out.append((m, "C20.fields"))
+        for r in first(recs, lambda r: r["status"] == "ok"):
+            m = copy.deepcopy(r)
+            m["new_files"] = 2
+            out.append((m, "C20.fields"))
+        return out
+
     def nontrivial(self, case):
         if case["route"] == "cli" and case["shape"] and case["shape"][0] == "PATH":
             return None
